@@ -113,7 +113,7 @@ def run_check(pid, spec, tier, seed, scratch, args, t0):
     if args.replay:
         return do_replay(pid, spec, binary, scratch, args)
 
-    for f in glob.glob(os.path.join(replay_dir, "*")):
+    for f in glob.glob(os.path.join(replay_dir, "*seed%d-*" % seed)):
         try:
             os.remove(f)
         except OSError:
@@ -237,7 +237,7 @@ def run_check(pid, spec, tier, seed, scratch, args, t0):
         # failure: find the fail file of this shard
         ff = os.path.join(faildir, "fail-%s-shard%d_%d.json" % (pid, pr["pi"], pr["sh"]))
         if os.path.exists(ff):
-            dst = os.path.join(replay_dir, "%s-%s-s%d.json" % (pid, pr["part"]["name"], pr["sh"]))
+            dst = os.path.join(replay_dir, "%s-%s-seed%d-s%d.json" % (pid, pr["part"]["name"], seed, pr["sh"]))
             shutil.copy(ff, dst)
             j = json.load(open(ff))
             violations.append((j.get("symptom", "?"), dst, j.get("message", "")))
@@ -245,7 +245,7 @@ def run_check(pid, spec, tier, seed, scratch, args, t0):
         # death without a verdict from the oracle
         crash = classify_crash(out)
         cur = os.path.join(faildir, "current-shard%d_%d.json" % (pr["pi"], pr["sh"]))
-        dst = os.path.join(replay_dir, "%s-%s-s%d-crash.txt" % (pid, pr["part"]["name"], pr["sh"]))
+        dst = os.path.join(replay_dir, "%s-%s-seed%d-s%d-crash.txt" % (pid, pr["part"]["name"], seed, pr["sh"]))
         with open(dst, "w") as f:
             f.write("exit status %s\n" % rc)
             if os.path.exists(cur):
@@ -363,7 +363,7 @@ def replay_once(pid, spec, binary, scratch, path, test=None, n=1):
 def do_replay(pid, spec, binary, scratch, args):
     path = os.path.abspath(args.replay)
     test = None
-    m = re.search(r"%s-([A-Za-z0-9_]+)-s\d+" % pid, os.path.basename(path))
+    m = re.search(r"%s-([A-Za-z0-9_]+?)-(?:seed\d+-)?s\d+" % pid, os.path.basename(path))
     if m:
         for part in spec["parts"]:
             if part["name"] == m.group(1):
